@@ -96,7 +96,8 @@ Definition final_code (l : list attempt) : Z :=
 
 (* ---------- wire format ----------
    cfg [maxAttempts; channelMax; bufLimit; n; code_1..code_n]
-   op  [m; size_1..size_m; k; (r; act; code; pb) x k]      one RPC
+   op  [m; size_1..size_m; k; (r; act; code; pb) x k]      one RPC (m >= 1)
+   op  [0; j; m; size_1..size_m; k; scripts]               the same RPC with the SendMsg of message j held (see below)
    obs [nattempts; (previous-attempts header; messages received; in order; half-close seen) x nattempts;
         final status code; replies received] *)
 Definition dec_cfg (cfg : word) : option policy :=
@@ -125,7 +126,7 @@ Definition script_ok (s : script) : bool :=
   (1 <=? s_r s) && (0 <=? s_act s) && (s_act s <=? 2) && (1 <=? s_code s) && (s_code s <=? 16) &&
   (0 <=? s_pb s) && (s_pb s <=? 3).
 
-Definition dec_op (op : word) : option (list Z * list script) :=
+Definition dec_plain (op : word) : option (list Z * list script) :=
   match get_bytes op with
   | Some (sizes, k :: rest) =>
     match dec_scripts (length rest) rest with
@@ -137,9 +138,34 @@ Definition dec_op (op : word) : option (list Z * list script) :=
   | _ => None
   end.
 
+(* A second op form [0; j; <plain op>] runs the same RPC with two application goroutines:
+   the SendMsg of message j (2 <= j <= m) is held right after its transport write on the first
+   attempt succeeded (before withRetry re-takes cs.mu) while a concurrent RecvMsg observes the
+   retryable failure of that attempt and creates and replays the next one; then SendMsg
+   continues.  withRetry must notice that the attempt was replaced and re-issue the message,
+   so the attempts receive exactly what they receive in the sequential run. *)
+Definition strip (op : word) : word := match op with 0 :: _ :: rest => rest | _ => op end.
+Definition stall_of (op : word) : Z := match op with 0 :: j :: _ => j | _ => 0 end.
+Definition dec_op (op : word) : option (list Z * list script) := dec_plain (strip op).
+
 (* the modelled situation: the buffer limit is exceeded by the first message or never *)
 Definition rpc_wf (p : policy) (sizes : list Z) : bool :=
   first_overflows p sizes || (fold_right (fun s acc => 5 + s + acc) 0 sizes <=? p_buf_limit p).
+
+(* the held-send scenario needs: first attempt reads exactly j messages and then fails in a
+   retryable way; the second attempt reads at least j messages; no buffer overflow *)
+Definition stall_wf (p : policy) (op : word) (sizes : list Z) (scs : list script) : bool :=
+  match op with
+  | 0 :: j :: _ =>
+    match scs with
+    | s0 :: s1 :: _ =>
+      (2 <=? j) && (j <=? Z.of_nat (length sizes)) && negb (first_overflows p sizes) &&
+      (s_r s0 =? j) && (s_act s0 =? 0) && in_codes p (s_code s0) && ((s_pb s0 =? 0) || (s_pb s0 =? 1)) &&
+      (j <=? s_r s1)
+    | _ => false
+    end
+  | _ => true
+  end.
 
 Definition rpc_attempts (p : policy) (sizes : list Z) (scs : list script) : list attempt :=
   attempts (Z.to_nat (eff_max p) + 1) p (Z.of_nat (length sizes)) (first_overflows p sizes) 0 scs.
@@ -148,7 +174,7 @@ Definition enc_attempt (a : attempt) : word := [a_prev a; a_recv a; 1; b2z (a_eo
 Definition run_op (p : policy) (op : word) : option word :=
   match dec_op op with
   | Some (sizes, scs) =>
-    if rpc_wf p sizes then
+    if rpc_wf p sizes && stall_wf p op sizes scs then
       let l := rpc_attempts p sizes scs in
       let fc := final_code l in
       Some (Z.of_nat (length l) :: concat (map enc_attempt l) ++ [fc; if fc =? 0 then 1 else 0])
